@@ -571,41 +571,134 @@ func ruleLayering(c *Ctx, r *Repo, cp *packages.Package) {
 		what string
 		pos  token.Pos
 	}
-	var seq []ev
-	ast.Inspect(fd.Body, func(n ast.Node) bool {
-		call, ok := n.(*ast.CallExpr)
-		if !ok {
-			return true
+	_ = ev{}
+	provKind := func(t types.Type) string {
+		pn := ""
+		if t != nil {
+			pn = t.String()
 		}
-		switch name := calleeName(info, call); {
-		case name == modPath+"/config.NewDefaultKoanf":
-			seq = append(seq, ev{"defaults", call.Pos()})
-		case strings.HasSuffix(name, "koanf/v2.Koanf).Load") && len(call.Args) >= 1:
-			// the provider is identified by its type (it may be built inline or bound to a variable first)
-			pn := ""
-			if t := info.TypeOf(call.Args[0]); t != nil {
-				pn = t.String()
-			}
-			switch {
-			case strings.Contains(pn, "providers/env."):
-				seq = append(seq, ev{"env", call.Pos()})
-			case strings.Contains(pn, "providers/file."):
-				seq = append(seq, ev{"file", call.Pos()})
-			case strings.Contains(pn, "providers/posflag."):
-				seq = append(seq, ev{"flags", call.Pos()})
-			default:
-				seq = append(seq, ev{"other:" + pn, call.Pos()})
-			}
-		case strings.HasSuffix(name, "koanf/v2.Koanf).UnmarshalWithConf") || strings.HasSuffix(name, "koanf/v2.Koanf).Unmarshal"):
-			seq = append(seq, ev{"decode", call.Pos()})
+		switch {
+		case strings.Contains(pn, "providers/env."):
+			return "env"
+		case strings.Contains(pn, "providers/file."):
+			return "file"
+		case strings.Contains(pn, "providers/posflag."):
+			return "flags"
 		}
-		return true
-	})
-	sort.Slice(seq, func(i, j int) bool { return seq[i].pos < seq[j].pos })
-	var got []string
-	for _, e := range seq {
-		got = append(got, e.what)
+		return "other:" + pn
 	}
+	funcs := pkgFuncs(cp)
+	// rowsOf: the provider expressions, in order, of a local table `S := []T{{..}, ..}` extended by
+	// `S = append(S, T{..})`, for the field the loop hands to Load
+	rowsOf := func(g *ast.FuncDecl, obj types.Object, field string) []ast.Expr {
+		var out []ast.Expr
+		pick := func(cl *ast.CompositeLit) {
+			st, _ := info.TypeOf(cl).Underlying().(*types.Struct)
+			for i, el := range cl.Elts {
+				if kv, ok := el.(*ast.KeyValueExpr); ok {
+					if types.ExprString(kv.Key) == field {
+						out = append(out, kv.Value)
+					}
+				} else if st != nil && i < st.NumFields() && st.Field(i).Name() == field {
+					out = append(out, el)
+				}
+			}
+		}
+		ast.Inspect(g.Body, func(n ast.Node) bool {
+			as, ok := n.(*ast.AssignStmt)
+			if !ok || len(as.Lhs) != 1 || len(as.Rhs) != 1 {
+				return true
+			}
+			id, ok := as.Lhs[0].(*ast.Ident)
+			if !ok || objOf(info, id) != obj {
+				return true
+			}
+			switch x := ast.Unparen(as.Rhs[0]).(type) {
+			case *ast.CompositeLit:
+				for _, el := range x.Elts {
+					if row, ok := ast.Unparen(el).(*ast.CompositeLit); ok {
+						pick(row)
+					}
+				}
+			case *ast.CallExpr:
+				if calleeName(info, x) == "builtin.append" && len(x.Args) >= 2 {
+					for _, a := range x.Args[1:] {
+						if row, ok := ast.Unparen(a).(*ast.CompositeLit); ok {
+							pick(row)
+						}
+					}
+				}
+			}
+			return true
+		})
+		return out
+	}
+	var events func(g *ast.FuncDecl, depth int) []string
+	events = func(g *ast.FuncDecl, depth int) []string {
+		type pe struct {
+			pos token.Pos
+			evs []string
+		}
+		var seq []pe
+		// range loops over a local table of sources
+		rangeOf := map[types.Object]*ast.RangeStmt{}
+		ast.Inspect(g.Body, func(n ast.Node) bool {
+			if rs, ok := n.(*ast.RangeStmt); ok {
+				if v, ok := rs.Value.(*ast.Ident); ok && info.Defs[v] != nil {
+					rangeOf[info.Defs[v]] = rs
+				}
+			}
+			return true
+		})
+		ast.Inspect(g.Body, func(n ast.Node) bool {
+			call, ok := n.(*ast.CallExpr)
+			if !ok {
+				return true
+			}
+			switch name := calleeName(info, call); {
+			case name == modPath+"/config.NewDefaultKoanf":
+				seq = append(seq, pe{call.Pos(), []string{"defaults"}})
+			case strings.HasSuffix(name, "koanf/v2.Koanf).Load") && len(call.Args) >= 1:
+				// the provider is identified by its type (it may be built inline or bound to a variable first)
+				if se, ok := ast.Unparen(call.Args[0]).(*ast.SelectorExpr); ok {
+					if id, ok := se.X.(*ast.Ident); ok {
+						if rs := rangeOf[info.Uses[id]]; rs != nil {
+							if sid, ok := ast.Unparen(rs.X).(*ast.Ident); ok {
+								var evs []string
+								for _, e := range rowsOf(g, info.Uses[sid], se.Sel.Name) {
+									evs = append(evs, provKind(info.TypeOf(e)))
+								}
+								if len(evs) > 0 {
+									seq = append(seq, pe{call.Pos(), evs})
+									return true
+								}
+							}
+						}
+					}
+				}
+				seq = append(seq, pe{call.Pos(), []string{provKind(info.TypeOf(call.Args[0]))}})
+			case strings.HasSuffix(name, "koanf/v2.Koanf).UnmarshalWithConf") || strings.HasSuffix(name, "koanf/v2.Koanf).Unmarshal"):
+				seq = append(seq, pe{call.Pos(), []string{"decode"}})
+			default:
+				// a helper of the package that loads sources: its events take the place of the call
+				if fn := calleeFunc(info, call); fn != nil && depth < 2 {
+					if h := funcs[fn]; h != nil && h != g && h.Body != nil {
+						if evs := events(h, depth+1); len(evs) > 0 {
+							seq = append(seq, pe{call.Pos(), evs})
+						}
+					}
+				}
+			}
+			return true
+		})
+		sort.Slice(seq, func(i, j int) bool { return seq[i].pos < seq[j].pos })
+		var out []string
+		for _, e := range seq {
+			out = append(out, e.evs...)
+		}
+		return out
+	}
+	got := events(fd, 0)
 	want := []string{"defaults", "env", "file", "flags", "decode"}
 	if strings.Join(got, ",") == strings.Join(want, ",") {
 		for _, w := range want[:4] {
@@ -728,12 +821,12 @@ func ruleGenerateData(c *Ctx, r *Repo, rule string) {
 		return
 	}
 	c.Func(funcKey(ip, fd))
-	fc := newFuncCanon(info, fd)
+	fc0 := newFuncCanon(info, fd)
 	nLit := 0
-	ast.Inspect(fd.Body, func(n ast.Node) bool {
+	inspectWithHelpers(ip, fd, fc0, 2, func(fc *fcanon, _ *ast.FuncDecl, n ast.Node) bool {
 		switch x := n.(type) {
 		case *ast.CompositeLit:
-			if !typeIs(info.TypeOf(x), "template.Interface") {
+			if !typeIs(info.TypeOf(x), "template.Interface") || len(x.Elts) == 0 {
 				return true
 			}
 			nLit++
